@@ -3,8 +3,8 @@ package sm2_test
 // C17 — shared cipher, AEAD and key material are safe for concurrent use.
 // A workload plan is generated (rapid), executed serially to obtain the expected results, then executed
 // by concurrent goroutines on the SAME objects and buffers. Oracles: (1) every concurrent result equals its serial result;
-// (2) every shared input buffer is byte-identical afterwards; (3) a deep hash of all package-level variables of the
-// library is unchanged; (4) the Go race detector (the test is built with -race).
+// (2) every shared input buffer is byte-identical afterwards; (3) the same plan run serially AGAIN afterwards still gives the original results (persistent corruption of tables or
+// other package-level state shows here whatever wrote it; a deep hash of all package-level variables is reported too); (4) the Go race detector (the test is built with -race).
 
 import (
 	"bytes"
@@ -151,7 +151,7 @@ var c17Kinds = []string{"encrypt", "decrypt", "seal", "seal", "open", "open", "o
 
 func TestVerif_C17_Concurrent(t *testing.T) {
 	rec := stats.Get("C17", "concurrent")
-	rec.Rule("rapid draws a workload plan: 2..16 goroutines x 3..25 operations from {Encrypt, Decrypt on ONE shared Block; Seal, Open, forged Open on shared AEADs (nonce 12/16/130 bytes, tag 16/12) over SHARED nonce/aad/plaintext/ciphertext buffers; NewCipher+NewGCM on the shared key; SignHashed / Sign+Verify with per-operation deterministic readers, VerifyHashed (good and bad), DerivePublic, GenerateKey, CheckOnCurve/TestPrivateKey on shared keys; independent sm3 hashes and SumSM3 over shared data}; message lengths from the kernel-combination generator. The plan runs serially first (expected results), then concurrently behind a barrier with GOMAXPROCS=16 under the race detector. Oracles: each concurrent result == its serial result; all shared buffers byte-identical afterwards; deep hash of every package-level variable of the six packages unchanged; no race report. Non-trivial: >= 2 goroutines operate on the same message buffer or the same AEAD/Block (true for essentially every plan); distinct by plan.")
+	rec.Rule("rapid draws a workload plan: 2..16 goroutines x 3..25 operations from {Encrypt, Decrypt on ONE shared Block; Seal, Open, forged Open on shared AEADs (nonce 12/16/130 bytes, tag 16/12) over SHARED nonce/aad/plaintext/ciphertext buffers; NewCipher+NewGCM on the shared key; SignHashed / Sign+Verify with per-operation deterministic readers, VerifyHashed (good and bad), DerivePublic, GenerateKey, CheckOnCurve/TestPrivateKey on shared keys; independent sm3 hashes and SumSM3 over shared data}; message lengths from the kernel-combination generator. The plan runs serially first (expected results), then concurrently behind a barrier with GOMAXPROCS=16 under the race detector. Oracles: each concurrent result == its serial result; all shared buffers byte-identical afterwards; the plan re-run serially afterwards reproduces the original results (a deep hash of every package-level variable of the six packages is taken before/after and differences are reported, not judged: a synchronised cache is legal); no race report. Non-trivial: >= 2 goroutines operate on the same message buffer or the same AEAD/Block (true for essentially every plan); distinct by plan.")
 	t.Cleanup(stats.FlushAll)
 	globals := c17Globals()
 	rapid.Check(t, func(t *rapid.T) {
@@ -305,9 +305,20 @@ func TestVerif_C17_Concurrent(t *testing.T) {
 				return
 			}
 		}
+		// (3) the whole plan again, serially: whatever the concurrent phase did to shared or package-level state, every call must
+		// still return what it returned when run alone the first time
+		for g := range plan {
+			for k, op := range plan[g] {
+				if got := s.run(op); !bytes.Equal(got, want[g][k]) {
+					vt.Fail(t, rec, "C17:state-corrupted", "after the concurrent workload, operation %s (i=%d j=%d) run alone no longer returns its original result: persistent state was corrupted\nbefore %x\nafter  %x", op.kind, op.i, op.j, want[g][k], got)
+					return
+				}
+			}
+		}
 		h1, _ := deephash.Hash(globals)
 		if d := deephash.Diff(h0, h1); len(d) > 0 {
-			vt.Fail(t, rec, "C17:package-state-modified", "package-level variables changed during the workload: %v", d)
+			// not a violation by itself (a correctly synchronised cache is allowed): reported, and judged through results and the race detector
+			rec.Note("package-level variables whose contents changed during a workload (results unaffected): %v", d)
 		}
 	})
 }
